@@ -1,7 +1,7 @@
 #!/usr/bin/env python3
 """Confirm a sub-agent's seeded change and run the checks against it.
 
-usage: tools/seedcheck.py <ID> <k|all> [--keep] [--props C01,C05]   (reads /tmp/seed/out/<ID>/<k>/)
+usage: tools/seedcheck.py <ID> <k|all> [--keep] [--props=C01,C05] [--root=/tmp/seed] [--tag=r2-]   (reads <root>/out/<ID>/<k>/)
 In a fresh scratch worktree of /repo (removed afterwards): apply patch, run the pinned suite, run the demo with
 and without the change, then run /verif/check <ID> --repo <worktree> on the patched tree.
 With --keep, a confirmed change is copied to /verif/seeded/<ID>-<k>/ with meta.json.
@@ -19,19 +19,23 @@ def sh(cmd, cwd=None, env=None, timeout=900):
         return 124, "TIMEOUT"
 
 
+ROOT = "/tmp/seed"
+TAG = ""
+
+
 def one(pid, k, keep, props):
-    src = "/tmp/seed/out/%s/%s" % (pid, k)
+    src = "%s/out/%s/%s" % (ROOT, pid, k)
     patch = os.path.join(src, "patch.diff")
     demo = os.path.join(src, "demo.py")
     if not os.path.exists(patch):
         print("%s/%s: no patch" % (pid, k)); return
     wt = tempfile.mkdtemp(prefix="sv-%s-%s-" % (pid, k)); os.rmdir(wt)
     rc, out = sh("git -C /repo worktree add --detach %s HEAD -q" % wt)
-    res = {"id": "%s-%s" % (pid, k), "property": pid}
+    res = {"id": "%s-%s%s" % (pid, TAG, k), "property": pid}
     try:
         env = dict(os.environ, PYTHONPATH=wt + "/src")
         # demo on the clean tree
-        demo_src = open(demo).read().replace("/tmp/seed/%s" % pid, wt) if os.path.exists(demo) else ""
+        demo_src = open(demo).read().replace("%s/%s" % (ROOT, pid), wt) if os.path.exists(demo) else ""
         dpath = os.path.join(wt, "_demo.py")
         open(dpath, "w").write(demo_src)
         rc0, o0 = sh("timeout 170 /venv/bin/python _demo.py", cwd=wt, env=env, timeout=200)
@@ -58,7 +62,7 @@ def one(pid, k, keep, props):
             for l in d["lines"][:2]:
                 print("      ", l)
         if keep and confirmed:
-            dst = os.path.join(VERIF, "seeded", "%s-%s" % (pid, k))
+            dst = os.path.join(VERIF, "seeded", "%s-%s%s" % (pid, TAG, k))
             os.makedirs(dst, exist_ok=True)
             shutil.copy(patch, os.path.join(dst, "patch.diff"))
             open(os.path.join(dst, "demo.py"), "w").write(open(demo).read())
@@ -80,6 +84,10 @@ if __name__ == "__main__":
     keep = "--keep" in sys.argv
     props = None
     for a in sys.argv:
+        if a.startswith("--root="):
+            ROOT = a.split("=", 1)[1]
+        if a.startswith("--tag="):
+            TAG = a.split("=", 1)[1]
         if a.startswith("--props="):
             props = a.split("=", 1)[1].split(",")
     pid = args[0].upper()
